@@ -1847,14 +1847,14 @@ fn generate(s: &mut Session) {
         dimension_cases(s);
         guard_cases(s);
         // the real Timers under scripted call sequences (random, and the solver's own sequence)
-        for k in 0..s.budget(150, 4000) {
+        for k in 0..s.budget(150, 900) {
             let mut rng = s.rng.fork();
             let ops = if k % 8 == 0 { solve_like_script(&mut rng) } else { gen_timer_script(&mut rng) };
             let gaps: Vec<u64> = ops.iter().map(|_| if rng.bool(0.5) { 2_000 + rng.below(40_000) as u64 } else { 0 }).collect();
             submit_timer_script(s, &ops, &gaps);
         }
         // the timer tree after new + solve (+ solve)
-        for _ in 0..s.budget(60, 2500) {
+        for _ in 0..s.budget(60, 500) {
             let mut rng = s.rng.fork();
             let p = random_problem(&mut rng);
             let mut st = base_settings(&mut rng);
@@ -1873,14 +1873,14 @@ fn generate(s: &mut Session) {
             submit_trace(s, &req_prob(&r), req_settings(&r));
         }
     }
-    for _ in 0..s.budget(700, 12000) {
+    for _ in 0..s.budget(700, 6000) {
         let mut rng = s.rng.fork();
         let p = random_problem(&mut rng);
         let st = base_settings(&mut rng);
         submit_trace(s, &p, st);
     }
     // strategy switches x iteration budgets (incl. max_iter == the switch iteration)
-    for k in 0..s.budget(40, 1500) {
+    for k in 0..s.budget(40, 300) {
         let mut rng = s.rng.fork();
         let (p, st) = switch_problem(&mut rng, k);
         sweep_switch(s, &p, &st);
@@ -1897,7 +1897,7 @@ fn generate(s: &mut Session) {
         }
     }
     // degenerate family: numerical breakdown, strategy switches, rollbacks
-    for _ in 0..s.budget(250, 20000) {
+    for _ in 0..s.budget(250, 4000) {
         let mut rng = s.rng.fork();
         let (p, st) = degenerate_problem(&mut rng);
         s.count("degenerate");
